@@ -15,6 +15,12 @@ import GoLucene.Model.SqlEval
                       `textClean` = every field name / string passes the renderer's own `literal` test.
   * `need_*`        — for the recorded findings that `toAst` mirrors, a row on which the two sides differ.
 
+  Float ranges: `rang` prints float bounds with `%.2f`; `twoDecExact` is the condition under which that is exact.  Since
+  fix F12 (`toFloats` compares an open end with `'*'`, as `toInts` does; finding K-range-float-open: `a:[* TO 1.5]` was
+  rendered `"a" BETWEEN '*' AND 1.5`) OPEN float ranges are comparisons too (`"a" <= 1.50`, `"a" >= 1.50`): `rangeAst`,
+  `cleanBounds` have the forms star/flt and flt/star, with the same condition (`exFloatUpTo`, `exFloatFrom`,
+  `need_two_decimals_open`).
+
   No hypothesis about `Model/Num` is assumed: the facts used (`decOfText (natDigits n) = (n, 0)`, a float's `%v`
   text never starts with two signs, numeric texts are ASCII without `,`) are proved below; so is the fact that the
   byte substitution `*`→`%`, `?`→`_` commutes with UTF-8 decoding (`runesOf_starPattern`).
@@ -633,6 +639,8 @@ def rangeAst (x : Ast) (incl : Bool) : Bnd → Bnd → Option Ast
   | .star, .int hi => some (.cmp (hiOp incl) x (intAst hi))
   | .int lo, .star => some (.cmp (loOp incl) x (intAst lo))
   | .flt lo, .flt hi => some (.and (.cmp (loOp incl) x (fixedAst lo)) (.cmp (hiOp incl) x (fixedAst hi)))
+  | .star, .flt hi => some (.cmp (hiOp incl) x (fixedAst hi))
+  | .flt lo, .star => some (.cmp (loOp incl) x (fixedAst lo))
   | .str lo, .str hi => some (.between x (.str lo) (.str hi))
   | _, _ => none
 
@@ -733,6 +741,9 @@ def cleanBounds (incl : Bool) : Bnd → Bnd → Bool
   | .int lo, .star => inInt64 lo
   | .flt lo, .flt hi =>
     twoDecExact lo && twoDecExact hi && !((atoi (fmtG lo)).isSome && (atoi (fmtG hi)).isSome)
+  -- open float ranges (since fix F12 `toFloats` recognises the open end `'*'`): `x <= 1.50`, `x >= 1.50`
+  | .star, .flt hi => twoDecExact hi && !(atoi (fmtG hi)).isSome
+  | .flt lo, .star => twoDecExact lo && !(atoi (fmtG lo)).isSome
   | .str lo, .str hi => incl && lo != [42] && hi != [42] && !lo.contains 44 && !hi.contains 44
   | _, _ => false
 
@@ -1090,10 +1101,18 @@ theorem range_means (row : Row) (l mn mx : Node) (incl : Bool) (p : F64) (d : In
   · -- star, int
     cases hast
     exact upper_only row l mn mx incl p d f _ hf ht (bndOf_star ha) (bndConst_int row hc)
+  · -- star, flt
+    cases hast
+    simp only [Bool.and_eq_true] at hclean
+    exact upper_only row l mn mx incl p d f _ hf ht (bndOf_star ha) (bndConst_flt row hc hclean.1)
   · cases hast
     exact lower_only row l mn mx incl p d f _ hf ht (bndConst_int row ha) (bndOf_star hc)
   · cases hast
     exact two_sided row l mn mx incl p d f _ _ hf ht (bndConst_int row ha) (bndConst_int row hc)
+  · -- flt, star
+    cases hast
+    simp only [Bool.and_eq_true] at hclean
+    exact lower_only row l mn mx incl p d f _ hf ht (bndConst_flt row ha hclean.1) (bndOf_star hc)
   · cases hast
     simp only [Bool.and_eq_true] at hclean
     exact two_sided row l mn mx incl p d f _ _ hf ht (bndConst_flt row ha hclean.1.1) (bndConst_flt row hc hclean.1.2)
@@ -1435,11 +1454,31 @@ example : cleanFilter exFloat = true := by decide +kernel
 example : (toAst exFloat == some (.and (.cmp .gt (.col [120]) (.num false [49, 46, 53, 48]))
     (.cmp .lt (.col [120]) (.num false [50, 46, 50, 53])))) = true := by decide +kernel
 
-/-- sanity check of the mirror (not part of the theorem): PostgreSQL's grammar reads the rendered text of the two
+/-- the open end `*` of a range -/
+def exStar : Node := .expr (mkLeaf (.prim (.str [42])) .wild)
+
+/-- `x:[* TO 1.5]`: an OPEN float range (since fix F12 `rang` prints `"x" <= 1.50`, no longer BETWEEN '*' AND 1.5) -/
+def exFloatUpTo : Expr := .mk (exField [120]) .range (.bound exStar (exLit (.flt f15)) true) F64.one 1
+/-- `x:{2.25 TO *}` -/
+def exFloatFrom : Expr := .mk (exField [120]) .range (.bound (exLit (.flt f225)) exStar false) F64.one 1
+
+example : cleanFilter exFloatUpTo = true := by decide +kernel
+example : cleanFilter exFloatFrom = true := by decide +kernel
+example : (toAst exFloatUpTo == some (.cmp .le (.col [120]) (.num false [49, 46, 53, 48]))) = true := by decide +kernel
+example : (toAst exFloatFrom == some (.cmp .gt (.col [120]) (.num false [50, 46, 50, 53]))) = true := by decide +kernel
+/-- the rendered text of the two open float ranges: `"x" <= 1.50` and `"x" > 2.25` -/
+example : (render pgFns exFloatUpTo == .ok [34, 120, 34, 32, 60, 61, 32, 49, 46, 53, 48]) = true := by decide +kernel
+example : (render pgFns exFloatFrom == .ok [34, 120, 34, 32, 62, 32, 50, 46, 50, 53]) = true := by decide +kernel
+
+/-- sanity check of the mirror (not part of the theorem): PostgreSQL's grammar reads the rendered text of the
     examples as exactly `toAst` -/
 example : (match render pgFns exTree with | .ok t => parseSql t == toAst exTree | _ => false) = true := by
   decide +kernel
 example : (match render pgFns exFloat with | .ok t => parseSql t == toAst exFloat | _ => false) = true := by
+  decide +kernel
+example : (match render pgFns exFloatUpTo with | .ok t => parseSql t == toAst exFloatUpTo | _ => false) = true := by
+  decide +kernel
+example : (match render pgFns exFloatFrom with | .ok t => parseSql t == toAst exFloatFrom | _ => false) = true := by
   decide +kernel
 
 /-! ## the exclusions are needed -/
@@ -1466,6 +1505,12 @@ theorem need_no_underscore : cleanFilter cexUnderscore = false ∧ ∃ a, toAst 
 def cexRound : Expr := .mk (exField [102]) .range (.bound (exLit (.flt f0001)) (exLit (.flt f0002)) true) F64.one 1
 theorem need_two_decimals : cleanFilter cexRound = false ∧ ∃ a, toAst cexRound = some a ∧
     evalSql [([102], .num 15 (-4))] a ≠ evalL [([102], .num 15 (-4))] cexRound :=
+  ⟨by decide +kernel, _, rfl, by decide +kernel⟩
+
+/-- the same for an open float range: `f:[0.001 TO *]` is printed as `>= 0.00` -/
+def cexRoundOpen : Expr := .mk (exField [102]) .range (.bound (exLit (.flt f0001)) exStar true) F64.one 1
+theorem need_two_decimals_open : cleanFilter cexRoundOpen = false ∧ ∃ a, toAst cexRoundOpen = some a ∧
+    evalSql [([102], .num 5 (-4))] a ≠ evalL [([102], .num 5 (-4))] cexRoundOpen :=
   ⟨by decide +kernel, _, rfl, by decide +kernel⟩
 
 
@@ -1821,8 +1866,10 @@ theorem bnd_nocomma (incl : Bool) (a c : Bnd) (h : cleanBounds incl a c = true) 
   have hstar : ∀ x ∈ starQ, x ≠ 44 := by decide
   cases a <;> cases c <;> simp only [cleanBounds, Bool.false_eq_true] at h
   · exact ⟨hstar, (numText_ok _ (fmtInt_numCh _)).2⟩
+  · exact ⟨hstar, (numText_ok _ (fmtG_allNum _)).2⟩
   · exact ⟨(numText_ok _ (fmtInt_numCh _)).2, hstar⟩
   · exact ⟨(numText_ok _ (fmtInt_numCh _)).2, (numText_ok _ (fmtInt_numCh _)).2⟩
+  · exact ⟨(numText_ok _ (fmtG_allNum _)).2, hstar⟩
   · exact ⟨(numText_ok _ (fmtG_allNum _)).2, (numText_ok _ (fmtG_allNum _)).2⟩
   · simp only [Bool.and_eq_true, Bool.not_eq_true'] at h
     exact ⟨sqlQuote_nocomma _ h.1.2, sqlQuote_nocomma _ h.2⟩
@@ -1996,3 +2043,4 @@ end GoLucene.SqlMeaning
 #print axioms GoLucene.SqlMeaning.globOn_starPattern
 #print axioms GoLucene.SqlMeaning.sqlValue_astOfPrim
 #print axioms GoLucene.SqlMeaning.need_two_decimals
+#print axioms GoLucene.SqlMeaning.need_two_decimals_open
